@@ -222,6 +222,9 @@ pub const VARIANTS: &[&str] = &[
     "wide-rich-inc",
     "layout-trap-vl",
     "plain-vl",
+    "nonresource",
+    "nonresource-rq",
+    "nonresource-ts",
 ];
 
 fn decls_of(p: &Program) -> Vec<DeclDesc> {
@@ -434,7 +437,13 @@ fn build_with(seed: u64, variant: &str, drops: &str) -> Option<Built> {
             "#if __HLSL_VERSION >= 2021 && defined(__HLSL_VERSION)\n#define VERSION_OK 1\n#else\n#define VERSION_OK 0\n#endif\n#if VERSION_OK\n{}#else\nerror version\n#endif\n",
             src
         ),
-        "pp-dead-garbage" => insert_lines(&src, mid_top, "#if 0\nvoid broken( { ) ) 12 + ;\n#elif defined(NOT_DEFINED_ANYWHERE)\nalso broken )\n#endif"),
+        // since fix ed75afa a skipped block may also hold lines that start with # but not with a directive name; they
+        // name the target macros here: inactive text must not matter on any target
+        "pp-dead-garbage" => insert_lines(
+            &src,
+            mid_top,
+            "#if 0\nvoid broken( { ) ) 12 + ;\n#3 RSSL_TARGET_MSL\n#while RSSL_TARGET_HLSL\n#frobnicate RSSL_TARGET_MSL\n#elif defined(NOT_DEFINED_ANYWHERE)\nalso broken )\n# ( RSSL_TARGET_HLSL\n#endif",
+        ),
         "unbounded" => {
             decls.push(DeclDesc { name: "g_unbounded".into(), kind: "Texture2D".into(), len: "*".into(), ss: false });
             insert_lines(&src, ff, "Texture2D<float4> g_unbounded[];")
@@ -476,6 +485,17 @@ fn build_with(seed: u64, variant: &str, drops: &str) -> Option<Built> {
             }
             includes.push(("common/decls.rssl".into(), common));
             main
+        }
+        "nonresource" | "nonresource-rq" | "nonresource-ts" => {
+            // a global of an object type that is not a resource (no register class: fix 774c0b4): it takes no slot on any
+            // target and every exporter refuses it with UnsupportedObjectType (DirectX used to panic while assigning slots)
+            let (kind, ty) = match variant {
+                "nonresource" => ("RayDesc", "RayDesc"),
+                "nonresource-rq" => ("RayQuery", "RayQuery<0>"),
+                _ => ("TriangleStream", "TriangleStream<float4>"),
+            };
+            decls.push(DeclDesc { name: "g_nonresource".into(), kind: kind.into(), len: "-".into(), ss: false });
+            insert_lines(&src, ff, &format!("{} g_nonresource;", ty))
         }
         "layout-trap" | "layout-trap-vl" => {
             // a struct whose HLSL structured-buffer layout and Metal layout differ: accepted everywhere as long as the
@@ -1495,6 +1515,8 @@ fn pp_real(src: &str, defines: &[(String, String)]) -> String {
                     E::ElseNotMatched => "ElseNotMatched".to_string(),
                     E::EndIfNotMatched => "EndIfNotMatched".to_string(),
                     E::ConditionChainNotFinished => "ConditionChainNotFinished".to_string(),
+                    E::ElseAfterElse(_) => "ElseAfterElse".to_string(),
+                    E::ElifAfterElse(_) => "ElifAfterElse".to_string(),
                     E::FailedToParseIfCondition(_)
                     | E::MacroExpectsDifferentNumberOfArguments
                     | E::MacroArgumentsNeverEnd
